@@ -543,6 +543,27 @@ func main() {
 		ordered(src(ur), "!r.discovery.IsCoordinator()", "return", "r.fillRoutingTable()", "r.updateRoutingTableOnCluster()", "r.processLeftOverDataReports(reports)") &&
 		strings.Contains(src(vr), "coordinator.CompareByID(myCoordinator)") &&
 		strings.Contains(src(gc), "return members[0]") && strings.Contains(src(gm), "members[i].Birthdate < members[j].Birthdate")
+	// ---- the client iterator's walk over the owners of a partition (C12)
+	ciGo := parse("cluster_iterator.go")
+	eiGo := parse("embedded_iterator.go")
+	ciGet := funcDecl(ciGo, "ClusterIterator", "getOwners")
+	ciRem := funcDecl(ciGo, "ClusterIterator", "removeScannedOwner")
+	ciLoad := funcDecl(ciGo, "ClusterIterator", "loadRoute")
+	ciScan := funcDecl(ciGo, "ClusterIterator", "scanOnOwners")
+	ciUpd := funcDecl(ciGo, "ClusterIterator", "updateIterator")
+	ciNext := funcDecl(ciGo, "ClusterIterator", "next")
+	eiScan := funcDecl(eiGo, "EmbeddedIterator", "scanOnOwners")
+	iterOK := ciGet != nil && ciRem != nil && ciLoad != nil && ciScan != nil && ciUpd != nil && ciNext != nil && eiScan != nil &&
+		ordered(src(ciGet), "raw = i.route.ReplicaOwners", "raw = i.route.PrimaryOwners") && !strings.Contains(src(ciGet), "i.routingTable") &&
+		ordered(src(ciRem), "(owner string)", "if o != owner", "rest = append(rest, o)", "i.route.ReplicaOwners = remove(i.route.ReplicaOwners)", "i.route.PrimaryOwners = remove(i.route.PrimaryOwners)") &&
+		ordered(src(ciLoad), "i.routingTable[i.partID]", "PrimaryOwners: append([]string(nil), route.PrimaryOwners...)", "ReplicaOwners: append([]string(nil), route.ReplicaOwners...)") &&
+		ordered(src(ciScan), "owners := i.getOwners()", "for _, owner := range owners", "i.loadCursor(owner)", "i.updateIterator(keys, newCursor, owner)", "if newCursor == 0", "i.removeScannedOwner(owner)") &&
+		ordered(src(eiScan), "owners := e.clusterIterator.getOwners()", "for _, owner := range owners", "e.clusterIterator.updateIterator(keys, newCursor, owner)", "if newCursor == 0", "e.clusterIterator.removeScannedOwner(owner)", "continue",
+			"e.clusterIterator.updateIterator(keys, newCursor, owner)", "if newCursor == 0", "e.clusterIterator.removeScannedOwner(owner)") &&
+		ordered(src(ciUpd), "if _, ok := i.partitionKeys[key]; !ok", "i.page = append(i.page, key)", "i.partitionKeys[key] = struct{}{}", "i.updateCursor(owner, cursor)") &&
+		ordered(src(ciNext), "i.fetchData()", "if len(i.page) != 0", "break", "if len(i.route.PrimaryOwners) == 0 && len(i.route.ReplicaOwners) == 0", "break",
+			"if len(i.page) == 0 && len(i.route.PrimaryOwners) == 0 && len(i.route.ReplicaOwners) == 0", "i.partID++", "i.reset()")
+	addBool("client_iterator_walks_remaining_owners_once", iterOK, "the client iterators ask the owners still on their own copy of the route, skip keys already met in the partition, and remove an owner by name when its cursor comes back 0; next() repeats until the route is empty")
 	loGo := parse("internal/cluster/routingtable/left_over_data.go")
 	plo := funcDecl(loGo, "RoutingTable", "processLeftOverDataReports")
 	repush := ur != nil && plo != nil &&
